@@ -1,5 +1,5 @@
 (** One entry point for the extracted model runner: component number, numbers in, numbers out. *)
-From Remoc Require Import Lib.Base Run.RunCodec Run.RunRobsVec Run.RunRobsDeque Run.RunRobsList Run.RunRobsMap Run.RunRobsSet Run.RunPort Run.RunBroadcast Run.RunIoChan Run.RunEndpoint Run.RunHandle Run.RunLazy Run.RunRwLock Run.RunWatch Run.RunRobsLag.
+From Remoc Require Import Lib.Base Run.RunCodec Run.RunRobsVec Run.RunRobsDeque Run.RunRobsList Run.RunRobsMap Run.RunRobsSet Run.RunPort Run.RunBroadcast Run.RunIoChan Run.RunEndpoint Run.RunHandle Run.RunLazy Run.RunRwLock Run.RunWatch Run.RunRobsLag Run.RunRtc.
 
 Definition run (comp : N) (inp : list N) : list N :=
   match comp with
@@ -15,6 +15,8 @@ Definition run (comp : N) (inp : list N) : list N :=
   | 14 => run_robs_lag inp
   | 16 => run_broadcast inp
   | 18 => run_io inp
+  | 12 => run_rtc inp
+  | 19 => run_rtc inp
   | 20 => run_handle inp
   | 200 => run_lazy inp
   | 17 => run_rwlock inp
